@@ -1084,12 +1084,21 @@ impl Gen {
     }
 
     fn x_op(&mut self, nfuncs: usize, ver3: bool, ascii: bool, rn: bool, strict: bool, nasty: bool) -> String {
-        let nroots = if self.rng.chance(1, 12) { 0 } else { self.rng.range(1, (nfuncs as u64).min(6)) as usize };
+        // root names that need sanitising also with clean variable names; now and then more than ten
+        // roots (generated names `_f10`, ..)
+        let nasty_roots = nasty || self.rng.chance(1, 3);
+        let nroots = if self.rng.chance(1, 12) {
+            0
+        } else if rn && nasty_roots && self.rng.chance(1, 8) {
+            self.rng.range(10, 14) as usize
+        } else {
+            self.rng.range(1, (nfuncs as u64).min(6)) as usize
+        };
         let mut roots = Vec::new();
         for _ in 0..nroots {
             let i = self.rng.below(nfuncs as u64);
             if rn {
-                let name: String = if nasty {
+                let name: String = if nasty_roots {
                     if self.rng.chance(1, 5) { String::new() } else { self.rng.pick(NAME_POOL).to_string() }
                 } else {
                     format!("f{i}")
